@@ -123,6 +123,62 @@ pub mod prelude {
         { unimplemented!() }
     }
 
+    // ---- A-std-path: the process argument vector and `std::path` (used by `Args::current_args` only). Each std operation is an
+    // uninterpreted function of its arguments; `file_name` and `file_stem` are *different* functions, nothing else is assumed.
+    #[verifier::external_type_specification]
+    #[verifier::external_body]
+    pub struct ExArgsOs(std::env::ArgsOs);
+    #[verifier::external_type_specification]
+    #[verifier::external_body]
+    pub struct ExPathBuf(std::path::PathBuf);
+    #[verifier::external_type_specification]
+    #[verifier::external_body]
+    pub struct ExPath(std::path::Path);
+
+    /// argv of the running process as the OS hands it over
+    pub uninterp spec fn process_argv() -> Seq<OsString>;
+    pub uninterp spec fn path_of(n: OsString) -> std::path::PathBuf;
+    pub uninterp spec fn pathbuf_deref(p: &std::path::PathBuf) -> &std::path::Path;
+    pub uninterp spec fn path_file_name(p: &std::path::Path) -> Option<&std::ffi::OsStr>;
+    pub uninterp spec fn path_file_stem(p: &std::path::Path) -> Option<&std::ffi::OsStr>;
+    pub uninterp spec fn path_extension(p: &std::path::Path) -> Option<&std::ffi::OsStr>;
+    pub uninterp spec fn os_str_to_str(o: &std::ffi::OsStr) -> Option<&str>;
+
+    pub assume_specification[ std::env::args_os ]() -> (r: std::env::ArgsOs)
+        ensures r.obeys_prophetic_iter_laws(), r.remaining() == process_argv();
+    pub assume_specification[ <std::path::PathBuf as From<OsString>>::from ](n: OsString) -> (r: std::path::PathBuf)
+        ensures r == path_of(n);
+    pub assume_specification[ <std::path::PathBuf as std::ops::Deref>::deref ](p: &std::path::PathBuf) -> (r: &std::path::Path)
+        ensures r == pathbuf_deref(p);
+    pub assume_specification[ std::path::Path::file_name ](p: &std::path::Path) -> (r: Option<&std::ffi::OsStr>)
+        ensures r == path_file_name(p);
+    pub assume_specification[ std::path::Path::file_stem ](p: &std::path::Path) -> (r: Option<&std::ffi::OsStr>)
+        ensures r == path_file_stem(p);
+    pub assume_specification[ std::path::Path::extension ](p: &std::path::Path) -> (r: Option<&std::ffi::OsStr>)
+        ensures r == path_extension(p);
+    pub assume_specification[ std::ffi::OsStr::to_str ](o: &std::ffi::OsStr) -> (r: Option<&str>)
+        ensures r == os_str_to_str(o);
+
+    /// C11 "the program name is taken from argv[0]": the file name (last path component, extension included) of argv[0] when
+    /// it is valid UTF-8; no name otherwise
+    pub open spec fn program_name(argv: Seq<OsString>) -> Option<Seq<char>> {
+        if argv.len() == 0 { None } else {
+            match path_file_name(pathbuf_deref(&path_of(argv[0]))) {
+                None => None,
+                Some(f) => match os_str_to_str(f) { None => None, Some(s) => Some(s@) },
+            }
+        }
+    }
+
+    impl<'a> ArgsItems<'a> {
+        /// T8c: the implicit unsizing coercion `Box<I>` -> `Box<dyn ExactSizeIterator<Item = OsString>>` made explicit for the
+        /// stand-in of T8b: the boxed iterator yields what the concrete one would have
+        #[verifier::external_body]
+        pub fn unsize<I: Iterator<Item = OsString>>(b: Box<I>) -> (r: ArgsItems<'a>)
+            ensures r.rest() == (*b).remaining(),
+        { unimplemented!() }
+    }
+
     pub assume_specification<T, A: std::alloc::Allocator>[ <Rc<[T], A> as From<Vec<T, A>>>::from ](v: Vec<T, A>) -> (r: Rc<[T], A>)
         ensures r@ == v@;
 
@@ -1775,7 +1831,7 @@ proof { assert(old(self).first_match(*named, false, ix as int)); }
 
 
 //@@ fn src/args.rs | impl State | fn take_arg
-//@@ unit args.State.take_arg tags=C01,C02,C03,C05,C09
+//@@ unit args.State.take_arg tags=C01,C02,C03,C05,C09,C14
 //@@ ret r
 //@@ spec
         requires old(self).wf(),
@@ -2674,7 +2730,7 @@ where
 //@@ end
 
 //@@ fn src/params.rs | impl ParseArgument | fn take_argument
-//@@ unit params.ParseArgument.take_argument tags=C18,C02,C06,C20
+//@@ unit params.ParseArgument.take_argument tags=C18,C02,C06,C20,C14
 //@@ ret r
 //@@ spec
         requires old(args).wf(), named_has_key(self.named),
@@ -2688,7 +2744,7 @@ proof { lemma_env_find_miss(self.named.env@); }
 //@@ end
 
 //@@ fn src/params.rs | impl Parser for ParseArgument | fn eval
-//@@ unit params.ParseArgument.eval tags=C02,C06,C18
+//@@ unit params.ParseArgument.eval tags=C02,C06,C18,C14
 //@@ members
     open spec fn pwf(&self) -> bool { named_has_key(self.named) }
     open spec fn rel(&self, pre: State, r: Result<T, Error>, post: State) -> bool {
@@ -2832,6 +2888,24 @@ impl State {
 //@@ subst `Box<dyn ExactSizeIterator<Item = OsString> + 'a>` => `ArgsItems<'a>`
 //@@ end
 
+// ---- C11: the program name is the file name of argv[0]; the arguments are argv[1..] in order
+//@@ fn src/args.rs | impl Args | fn current_args
+//@@ unit args.Args.current_args tags=C11
+//@@ ret r
+//@@ spec
+    ensures
+        (r.name matches Some(n) ==> program_name(process_argv()) == Some(n@)) && (r.name is None ==> program_name(process_argv()) is None), // #program_name_is_the_file_name_of_argv0
+        r.items.rest() =~= (if process_argv().len() > 0 { process_argv().skip(1) } else { process_argv() }), // #arguments_are_argv_after_the_program_name
+//@@ insert after 1 `|n`
+: OsString
+//@@ insert after 1 `|n|`
+-> (o: Option<String>) ensures (o matches Some(s) ==> program_name(seq![n]) == Some(s@)) && (o is None ==> program_name(seq![n]) is None) // #name_is_file_name_of_the_path_when_utf8
+//@@ insert before 1 `Box::new(value)`
+ArgsItems::unsize(
+//@@ insert after 1 `Box::new(value)`
+)
+//@@ end
+
 //@@ type src/arg.rs | enum ArgType
 //@@ unit arg.ArgType tags= derive_eq
 //@@ end
@@ -2930,13 +3004,14 @@ impl ArgScanner<'_> {
 }
 
 //@@ fn src/args.rs | mod inner | impl State | fn construct
-//@@ unit args.State.construct tags=C09,C10,C03,C04,C20 loops=1 desugar_for=1
+//@@ unit args.State.construct tags=C09,C10,C03,C04,C20,C11 loops=1 desugar_for=1
 //@@ ret r
 //@@ spec
         requires *old(err) is None,
         ensures
             r.wf() && r.scope.start == 0 && r.scope.end == r.items.len(), // #whole_line_in_scope
             *final(err) is None && no_comp(r) ==> dd_rule(r.items@, r.item_state@), // #only_the_first_double_dash_separates_and_is_pre_consumed
+            r.path@ =~= (match args.name { Some(n) => seq![n], None => Seq::<String>::empty() }), // #command_path_starts_as_just_the_program_name
 //@@ loop 1
             invariant_except_break
                 *err is None,
